@@ -217,6 +217,11 @@ func init() {
 								if wd := w.WidthOf(i); wd >= 0 && len(x) > wd && v == "ok" {
 									v = fmt.Sprintf("element %s.%s longer than its width", k, w.Elems[i].Path)
 								}
+								for j := 0; j < len(x) && v == "ok"; j++ {
+									if c := x[j]; c == '*' || c == '{' || c == '}' || c < 0x20 || c > 0x7e {
+										v = fmt.Sprintf("element outside the FAIM character class [non-FAIM character in %s.%s]", k, w.Elems[i].Path)
+									}
+								}
 							}
 						}
 					}
@@ -342,6 +347,13 @@ func init() {
 						o.Case("prop:wrap-agree", sameOr(base, r), t)
 					}
 				}
+			}
+		}
+		// accepted texts must hold FAIM characters only: non-FAIM bytes in elements of several tags
+		if small := texts["fedWireMessage-BankTransfer.txt"]; small != "" {
+			for _, seg := range []string{"{1100}30P \xc3\xa9", "{1110}0131\xc3\xa91234ABCD", "{1130}1XYZdescr\xc3\xa9ption*", "{3320}Ref\xc3\xa9rence*", "{4320}Ref\x01*", "{6000}Line~One*"} {
+				rec(small+"\n"+seg, 0, nil, io.EOF, "nil", nil)
+				rec(seg+"\n"+small, 0, nil, io.EOF, "nil", nil)
 			}
 		}
 		// degenerate inputs
